@@ -33,10 +33,12 @@ const (
 	dataSync   syncType = "dataSync"
 )
 
-// initGuardedStore serializes Init with Head. On first use Head adopts the head it finds on disk as the
-// store's height, and Init writes the head to disk before it publishes it: a Head call between the two
-// (a peer's head request, the validation of a gossiped header) makes Init publish a height that is
-// already set, which go-header treats as fatal.
+// initGuardedStore serializes Init with Head, and the Head calls that find the store's height unset with
+// each other. On first use Head adopts the head it finds on disk as the store's height, and Init writes
+// the head to disk before it publishes it: a Head call between the two (a peer's head request, the
+// validation of a gossiped header) makes Init publish a height that is already set, and a slow first
+// Head after a restart sets the height back below headers published meanwhile. go-header treats both
+// as fatal when the next header is published.
 type initGuardedStore[H header.Header[H]] struct {
 	*goheaderstore.Store[H]
 	mu sync.RWMutex
@@ -49,8 +51,15 @@ func (s *initGuardedStore[H]) Init(ctx context.Context, initial H) error {
 }
 
 func (s *initGuardedStore[H]) Head(ctx context.Context, opts ...header.HeadOption[H]) (H, error) {
-	s.mu.RLock()
-	defer s.mu.RUnlock()
+	if s.Store.Height() == 0 {
+		// this lookup may adopt the head found on disk (after a restart): one at a time, so that a slow
+		// one cannot set the height back after headers appended since have been published
+		s.mu.Lock()
+		defer s.mu.Unlock()
+	} else {
+		s.mu.RLock()
+		defer s.mu.RUnlock()
+	}
 	return s.Store.Head(ctx, opts...)
 }
 
